@@ -135,8 +135,11 @@ def known_findings():
     Only `known:` lines suppress anything; `fixed:` lines are a record.
     """
     out = []
-    p = os.path.join(VERIF, "known_findings.txt")
-    if os.path.exists(p):
+    import glob
+    files = [os.path.join(VERIF, "known_findings.txt")] + sorted(glob.glob(os.path.join(VERIF, "known_findings.d", "*.txt")))
+    for p in files:
+        if not os.path.exists(p):
+            continue
         for line in open(p):
             line = line.strip()
             if not line or line.startswith("#"):
@@ -157,13 +160,25 @@ def known_findings():
     return out
 
 
+def _known_concat(sc):
+    """One file with every known-findings line (main file + known_findings.d/*), for the Go side."""
+    import glob
+    dst = os.path.join(sc.out, "known_findings.all.txt")
+    if not os.path.exists(dst):
+        with open(dst, "w") as f:
+            for p in [os.path.join(VERIF, "known_findings.txt")] + sorted(glob.glob(os.path.join(VERIF, "known_findings.d", "*.txt"))):
+                if os.path.exists(p):
+                    f.write(open(p).read() + "\n")
+    return dst
+
+
 def run_part(sc, binary, test, part, tier, seed, timeout, env=None, replay=None, cwd=None, gomaxprocs=None):
     """Run one harness test function as a child process; returns (report|None, logpath, status)."""
     outp = os.path.join(sc.out, f"{part}.json")
     logp = os.path.join(sc.out, f"{part}.log")
     e = goenv({
         "VERIF_OUT": outp, "VERIF_TIER": tier, "VERIF_SEED": str(seed),
-        "VERIF_KNOWN": os.path.join(VERIF, "known_findings.txt"),
+        "VERIF_KNOWN": _known_concat(sc),
         "VERIF_ARENA": sc.arena, "VERIF_SCRATCH": sc.root, "VERIF_EGO_SRC": sc.ego,
         "VERIF_DIR": VERIF, "VERIF_BIN": sc.bin,
         "VERIF_HOME": os.path.join(sc.root, "home-" + part),
